@@ -1328,3 +1328,659 @@ theorem retry_publish {chk : Nat → Nat → Bool} {s s' : State} (hI : Inv chk 
     · simp [Local.feedLoad, hpc, hval, h1]; omega
 
 end Woodpile.Abt.RA
+
+/-! ## Track abt2: statement-strength additions (claim audit gaps 7, 10, 18) -/
+
+namespace Woodpile.Abt.RA
+
+theorem run_append (chk : Nat → Nat → Bool) (l1 l2 : List Label) : ∀ (s : State),
+    run chk s (l1 ++ l2) = (match run chk s l1 with | some s1 => run chk s1 l2 | none => none) := by
+  induction l1 with
+  | nil => intro s; simp [run]
+  | cons l ls ih =>
+    intro s
+    simp only [List.cons_append, run]
+    cases step chk s l with
+    | none => rfl
+    | some s1 => exact ih s1
+
+theorem reachable_run {chk : Nat → Nat → Bool} {v0 : Nat} {s s' : State} (h : Reachable chk v0 s)
+    (ls : List Label) (hr : run chk s ls = some s') : Reachable chk v0 s' := by
+  obtain ⟨l0, h0⟩ := h
+  exact ⟨l0 ++ ls, by rw [run_append, h0]; exact hr⟩
+
+theorem reachable_step {chk : Nat → Nat → Bool} {v0 : Nat} {s s' : State} (h : Reachable chk v0 s)
+    (l : Label) (hs : step chk s l = some s') : Reachable chk v0 s' :=
+  reachable_run h [l] (by simp [run, hs])
+
+/-- `retry_publish` plus: the sequence message the failed iteration was based on is not older
+than the reader's view of `sequence` when the snapshot began, so the newer message `ts` lies
+strictly beyond everything that happened-before the start of the snapshot; a retry does not
+move `start`. -/
+theorem retry_publish_during {chk : Nat → Nat → Bool} {s s' : State} (hI : Inv chk s) (t ts : Nat)
+    (hpc : (s.thr t).loc.pc = .sSeq2) (hs : step chk s (.run t ts) = some s')
+    (hretry : (s'.thr t).loc.pc = .sV) :
+    s.start t ≤ (s.thr t).loc.sq ∧ (s.thr t).loc.sq < ts ∧ ts < (s.mem .seq).length ∧
+    (s'.thr t).loc.sq = ts ∧ s'.mem = s.mem ∧ s'.start t = s.start t := by
+  obtain ⟨h1, h2, h3, h4⟩ := retry_publish hI t ts hpc hs hretry
+  have hrd := (hI.t t).rd
+  simp only [RInv, hpc] at hrd
+  refine ⟨hrd.1, h1, h2, h3, h4, ?_⟩
+  simp only [step, Local.next, hpc] at hs
+  cases hm : (s.mem .seq)[ts]? <;> simp only [hm] at hs
+  · simp at hs
+  · split at hs <;> simp at hs
+    subst hs; rfl
+
+/-- The reader `t` run alone for `k` steps: its `j`-th load (counting from `j0`) reads the
+message with timestamp `pick j s` (an arbitrary, possibly adversarial, reads-from strategy that
+may look at the step number and the whole machine state). -/
+def solo (chk : Nat → Nat → Bool) (t : Nat) (pick : Nat → State → Nat) : Nat → Nat → State → Option State
+  | _, 0, s => some s
+  | j, k + 1, s =>
+    match step chk s (.run t (pick j s)) with
+    | some s' => solo chk t pick (j + 1) k s'
+    | none => none
+
+/-- `pick` only ever proposes messages the reader is allowed to read (at or after its view of
+the location, and already written) - in every reachable state in which `t` is inside `snapshot`. -/
+def Admissible (chk : Nat → Nat → Bool) (v0 : Nat) (t : Nat) (pick : Nat → State → Nat) : Prop :=
+  ∀ (j : Nat) (s : State), Reachable chk v0 s → (s.thr t).loc.pc.inSnap = true →
+    ∀ l o, (s.thr t).loc.next = .load l o → (s.thr t).view l ≤ pick j s ∧ pick j s < (s.mem l).length
+
+/-- A solo run is a run of the machine under the schedule "`t`, `k` times". -/
+theorem solo_is_run (chk : Nat → Nat → Bool) (t : Nat) (pick : Nat → State → Nat) (k : Nat) :
+    ∀ (j : Nat) (s s' : State), solo chk t pick j k s = some s' →
+      ∃ tss : List Nat, tss.length = k ∧ run chk s (tss.map (.run t ·)) = some s' := by
+  induction k with
+  | zero => intro j s s' h; simp [solo] at h; subst h; exact ⟨[], rfl, rfl⟩
+  | succ k ih =>
+    intro j s s' h
+    simp only [solo] at h
+    cases hst : step chk s (.run t (pick j s)) with
+    | none => simp [hst] at h
+    | some s1 =>
+      simp only [hst] at h
+      obtain ⟨tss, hl, hr⟩ := ih (j + 1) s1 s' h
+      exact ⟨pick j s :: tss, by simp [hl], by simp [run, hst, hr]⟩
+
+/-- The strategy "always read the latest message" (what a machine with a single copy of
+memory does). -/
+def pickLatest (t : Nat) : Nat → State → Nat := fun _ s =>
+  match (s.thr t).loc.next with
+  | .load l _ => (s.mem l).length - 1
+  | _ => 0
+
+theorem pickLatest_admissible {chk : Nat → Nat → Bool} {v0 : Nat} (h0 : chk 0 v0 = true) (t : Nat) :
+    Admissible chk v0 t (pickLatest t) := by
+  intro j s hs _ l o hnx
+  have hT := (inv_reachable h0 hs).t t
+  have := hT.wfv l
+  simp only [pickLatest, hnx]
+  omega
+
+/-- Uniform termination on the view machine: whatever admissible messages the reader is made
+to read, it returns within `soloMeasure` own steps, memory untouched. -/
+theorem solo_terminates {chk : Nat → Nat → Bool} {v0 : Nat} (h0 : chk 0 v0 = true) (t : Nat)
+    (pick : Nat → State → Nat) (hadm : Admissible chk v0 t pick) (m : Nat) :
+    ∀ (j : Nat) (s : State), Reachable chk v0 s → (s.thr t).loc.pc.inSnap = true → soloMeasure s t ≤ m →
+      ∃ k, k ≤ m ∧ ∃ s', solo chk t pick j k s = some s' ∧ (s'.thr t).loc.pc = .retSnap ∧ s'.mem = s.mem := by
+  induction m with
+  | zero =>
+    intro j s _ hpc hm
+    have := soloMeasure_pos hpc
+    omega
+  | succ m ih =>
+    intro j s hs hpc hm
+    have hI := inv_reachable h0 hs
+    obtain ⟨l, o, hnx⟩ := (snapshot_no_lock_aux chk _ hpc).1
+    have ha := hadm j s hs hpc l o hnx
+    have hne : step chk s (.run t (pick j s)) ≠ none := by
+      rw [Ne, step_none_iff]
+      intro h
+      rcases h with h | ⟨h, _⟩ | ⟨l', o', h, hbad⟩
+      · rw [hnx] at h; cases h
+      · simp [Local.next, h] at hnx
+      · rw [hnx] at h; injection h with h1 h2; subst h1
+        exact hbad ha
+    cases hst : step chk s (.run t (pick j s)) with
+    | none => exact absurd hst hne
+    | some s1 =>
+      obtain ⟨hmem, hlt, hor⟩ := solo_step hI t _ hpc hst
+      rcases hor with hret | hin
+      · exact ⟨1, by omega, s1, by simp [solo, hst], hret, hmem⟩
+      · obtain ⟨k, hk, s', hsolo, hret, hmem'⟩ := ih (j + 1) s1 (reachable_step hs _ hst) hin (by omega)
+        exact ⟨k + 1, by omega, s', by simp [solo, hst, hsolo], hret, by rw [hmem', hmem]⟩
+
+end Woodpile.Abt.RA
+
+/-! ### Frames, the writers' knowledge, and the bookkeeping laws on the view machine (gap 7) -/
+namespace Woodpile.Abt.RA
+
+/-- Everything a step leaves alone or only grows: other threads are untouched, every view
+only grows (and a `sync t u` makes `t`'s view cover `u`'s), `start` moves only for a `.start`
+(to the caller's view of `sequence`), the argument pair `(ub, uv)` of the call in progress is
+fixed by every `run`/`sync` step. -/
+structure FrameSpec (s s' : State) (l : Label) : Prop where
+  others : ∀ t', t' ≠ actor l → s'.thr t' = s.thr t' ∧ s'.start t' = s.start t'
+  views : ∀ t' l', (s.thr t').view l' ≤ (s'.thr t').view l'
+  sync : ∀ t u, l = .sync t u → (s'.thr t).loc = (s.thr t).loc ∧ s'.start t = s.start t ∧
+      ∀ l', (s.thr u).view l' ≤ (s'.thr t).view l'
+  start : ∀ t op, l = .start t op → (s'.thr t).loc = (s.thr t).loc.start op ∧ (s'.thr t).view = (s.thr t).view ∧
+      s'.start t = (s.thr t).view .seq ∧ (s.thr t).loc.pc.terminal = true
+  run : ∀ t ts, l = .run t ts → (s'.thr t).loc.ub = (s.thr t).loc.ub ∧ (s'.thr t).loc.uv = (s.thr t).loc.uv ∧
+      s'.start t = s.start t
+
+theorem views_of_actor {s s' : State} {l : Label} (h1 : ∀ t', t' ≠ actor l → s'.thr t' = s.thr t')
+    (h2 : ∀ l', (s.thr (actor l)).view l' ≤ (s'.thr (actor l)).view l') :
+    ∀ t' l', (s.thr t').view l' ≤ (s'.thr t').view l' := by
+  intro t' l'
+  by_cases ht : t' = actor l
+  · subst ht; exact h2 l'
+  · rw [h1 t' ht]; exact Nat.le_refl _
+
+theorem frame_run_aux (s : State) (t ts : Nat) (th' : Thread) (lg' : Nat → List (Nat × Nat)) (mem' : Loc → List Msg)
+    (held' : Option Nat) (p' : Bool) (mv' : View) (hist' : List (Nat × Nat))
+    (hv : ∀ l', (s.thr t).view l' ≤ th'.view l') (hub : th'.loc.ub = (s.thr t).loc.ub)
+    (huv : th'.loc.uv = (s.thr t).loc.uv) :
+    FrameSpec s { s with thr := upd s.thr t th', log := lg', mem := mem', held := held', poisoned := p',
+                         mview := mv', hist := hist' } (.run t ts) := by
+  refine ⟨?_, ?_, (by intro _ _ h; cases h), (by intro _ _ h; cases h), ?_⟩
+  · intro t' ht; simp only [actor] at ht; simp [upd_ne _ _ _ ht]
+  · apply views_of_actor (l := .run t ts)
+    · intro t' ht; simp only [actor] at ht; simp [upd_ne _ _ _ ht]
+    · intro l'; simp only [actor, upd_same]; exact hv l'
+  · intro t2 ts2 h; cases h
+    simp only [upd_same]; exact ⟨hub, huv, trivial⟩
+
+theorem feedLoad_args (chk : Nat → Nat → Bool) (th : Local) (val : Nat) :
+    (th.feedLoad chk val).ub = th.ub ∧ (th.feedLoad chk val).uv = th.uv := by
+  obtain ⟨pc, ub, uv, sq, bits, base⟩ := th
+  cases pc <;> simp only [Local.feedLoad] <;> (repeat' split) <;> simp
+
+theorem feedLock_args (th : Local) (r : LockRes) : (th.feedLock r).ub = th.ub ∧ (th.feedLock r).uv = th.uv := by
+  obtain ⟨pc, ub, uv, sq, bits, base⟩ := th
+  cases pc <;> cases r <;> exact ⟨rfl, rfl⟩
+
+theorem feedUnit_args (th : Local) : th.feedUnit.ub = th.ub ∧ th.feedUnit.uv = th.uv := by
+  obtain ⟨pc, ub, uv, sq, bits, base⟩ := th
+  cases pc <;> exact ⟨rfl, rfl⟩
+
+theorem step_frame {chk : Nat → Nat → Bool} {s s' : State} (hI : Inv chk s) (l : Label) (h : step chk s l = some s') :
+    FrameSpec s s' l := by
+  cases l with
+  | sync t u =>
+    simp [step] at h; subst h
+    refine ⟨?_, ?_, ?_, (by intro _ _ h; cases h), (by intro _ _ h; cases h)⟩
+    · intro t' ht; simp only [actor] at ht; simp [upd_ne _ _ _ ht]
+    · apply views_of_actor (l := .sync t u)
+      · intro t' ht; simp only [actor] at ht; simp [upd_ne _ _ _ ht]
+      · intro l'; simp only [actor, upd_same]; exact join_le_left _ _ _
+    · intro t2 u2 h; cases h
+      exact ⟨by simp, by simp, fun l' => by simp only [upd_same]; exact join_le_right _ _ _⟩
+  | start t op =>
+    simp only [step] at h
+    split at h
+    · rename_i hterm
+      simp at h; subst h
+      refine ⟨?_, ?_, (by intro _ _ h; cases h), ?_, (by intro _ _ h; cases h)⟩
+      · intro t' ht; simp only [actor] at ht; simp [upd_ne _ _ _ ht]
+      · apply views_of_actor (l := .start t op)
+        · intro t' ht; simp only [actor] at ht; simp [upd_ne _ _ _ ht]
+        · intro l'; simp [actor]
+      · intro t2 op2 h; cases h
+        simp [hterm]
+    · simp at h
+  | run t ts =>
+    simp only [step] at h
+    cases hnx : (s.thr t).loc.next <;> simp only [hnx] at h
+    case load l o =>
+      cases hm : (s.mem l)[ts]? <;> simp only [hm] at h
+      · simp at h
+      · split at h <;> simp at h
+        rename_i m hv
+        subst h
+        exact frame_run_aux s t ts _ _ _ _ _ _ _ (fun l' => loadView_ge hv l') (feedLoad_args _ _ _).1 (feedLoad_args _ _ _).2
+    case store l o val =>
+      simp at h; subst h
+      refine frame_run_aux s t ts _ _ _ _ _ _ _ ?_ (feedUnit_args _).1 (feedUnit_args _).2
+      intro l'
+      by_cases hl : l' = l
+      · subst hl; simp only [upd_same]
+        have := (hI.t t).wfv l'; omega
+      · simp [upd_ne _ _ _ hl]
+    case lock =>
+      split at h <;> simp at h
+      subst h
+      exact frame_run_aux s t ts _ _ _ _ _ _ _ (fun l' => join_le_left _ _ _) (feedLock_args _ _).1 (feedLock_args _ _).2
+    case tryLock =>
+      split at h <;> simp at h <;> subst h
+      · exact frame_run_aux s t ts _ _ _ _ _ _ _ (fun l' => join_le_left _ _ _) (feedLock_args _ _).1 (feedLock_args _ _).2
+      · exact frame_run_aux s t ts _ _ _ _ _ _ _ (fun l' => Nat.le_refl _) (feedLock_args _ _).1 (feedLock_args _ _).2
+    case unlock p =>
+      simp at h; subst h
+      exact frame_run_aux s t ts _ _ _ _ _ _ _ (fun l' => Nat.le_refl _) (feedUnit_args _).1 (feedUnit_args _).2
+    case clearPoison =>
+      simp at h; subst h
+      exact frame_run_aux s t ts _ _ _ _ _ _ _ (fun l' => Nat.le_refl _) (feedUnit_args _).1 (feedUnit_args _).2
+    case none => simp at h
+
+
+
+theorem hist_ext {chk : Nat → Nat → Bool} {s s' : State} {l : Label} (h : step chk s l = some s') :
+    ∃ y, s'.hist = s.hist ++ y := by
+  rcases hist_step chk s s' l h with h | ⟨_, _, _, _, h⟩
+  · exact ⟨[], by simp [h]⟩
+  · exact ⟨_, h⟩
+
+/-- At `aB` the lock holder reads the base time of the most recently published pair, which is
+the pair at index `view(sequence)`. -/
+theorem aB_reads_current {chk : Nat → Nat → Bool} {s : State} (hI : Inv chk s) (t ts : Nat) (m : Msg)
+    (hpc : (s.thr t).loc.pc = .aB) (hm : (s.mem (.b (odd (s.thr t).loc.sq)))[ts]? = some m)
+    (hv : (s.thr t).view (.b (odd (s.thr t).loc.sq)) ≤ ts) :
+    ∃ p, s.hist[(s.thr t).view .seq]? = some p ∧ p.1 = m.val ∧ s.hist.getLast? = some p := by
+  have hT := hI.t t
+  have hG := hI.g
+  have hh : s.held = some t := hT.lock.1 (by simp [hpc, Pc.inCS])
+  have hH := hI.h t hh
+  have hw := hH.wpc
+  simp only [WInv, hpc] at hw
+  have hnlen : (s.mem .seq).length = nOf s.mem + 1 := by have := hG.hpos; simp [nOf]; omega
+  have hcs := hH.cover .seq
+  have hvs : (s.thr t).view .seq = nOf s.mem := by omega
+  have htslt : ts < (s.mem (.b (odd (s.thr t).loc.sq))).length := (List.getElem?_eq_some_iff.mp hm).1
+  have hcov := hH.cover (.b (odd (s.thr t).loc.sq))
+  have hlen := hH.lenb (odd (s.thr t).loc.sq)
+  simp only [hpc, wb, Bool.false_eq_true, false_and, if_false, Nat.add_zero] at hlen
+  rw [bit_odd, hw] at hlen
+  have htseq : ts = tsOf (s.thr t).loc.sq := by
+    rw [hw] at htslt hcov hv ⊢; unfold tsOf; omega
+  obtain ⟨p, hp⟩ := hist_get_of_lt hG (k := nOf s.mem) (by omega)
+  have := (hG.pairs _ p hp).1
+  rw [← hw, ← htseq, valAt_of_get hm] at this
+  simp at this
+  refine ⟨p, by rw [hvs]; exact hp, this.symm, ?_⟩
+  rw [List.getLast?_eq_getElem?, hG.hlen, hnlen]; simpa using hp
+
+theorem uinv_step {chk : Nat → Nat → Bool} {s s' : State} (hI : Inv chk s) (l : Label)
+    (hU : ∀ t, UInv s.hist ((s.thr t).view .seq) (s.thr t).loc) (hs : step chk s l = some s') :
+    ∀ t, UInv s'.hist ((s'.thr t).view .seq) (s'.thr t).loc := by
+  have hF := step_frame hI l hs
+  obtain ⟨y, hy⟩ := hist_ext hs
+  have hold : ∀ t', (s'.thr t').loc = (s.thr t').loc → UInv s'.hist ((s'.thr t').view .seq) (s'.thr t').loc := by
+    intro t' h; rw [h, hy]; exact UInv_mono (hF.views t' .seq) (hU t')
+  intro t'
+  by_cases ht : t' ≠ actor l
+  · exact hold t' (by rw [(hF.others t' ht).1])
+  have ht : t' = actor l := Decidable.of_not_not ht
+  subst ht
+  cases l with
+  | sync t u => exact hold t (hF.sync t u rfl).1
+  | start t op =>
+    simp only [actor]
+    rw [(hF.start t op rfl).1]
+    cases op <;> simp [UInv, Local.start]
+  | run t ts =>
+    simp only [actor]
+    have hUt := hU t
+    have hT := hI.t t
+    simp only [step] at hs
+    cases hpc : (s.thr t).loc.pc <;> simp only [Local.next, hpc] at hs
+    case idle | retSnap | retBool | sPanic | aPanic => simp at hs
+    case sSeq | sSeq2 | aSeq =>
+      cases hm : (s.mem .seq)[ts]? <;> simp only [hm] at hs
+      · simp at hs
+      · split at hs <;> simp at hs
+        subst hs
+        simp only [upd_same, Local.feedLoad, hpc, UInv]
+        all_goals (repeat' split)
+        all_goals (try trivial)
+        all_goals simp_all
+    case sV | aV =>
+      cases hm : (s.mem (.v (odd (s.thr t).loc.sq)))[ts]? <;> simp only [hm] at hs
+      · simp at hs
+      · split at hs <;> simp at hs
+        subst hs
+        simp [upd_same, Local.feedLoad, hpc, UInv]
+    case sB =>
+      cases hm : (s.mem (.b (odd (s.thr t).loc.sq)))[ts]? <;> simp only [hm] at hs
+      · simp at hs
+      · split at hs <;> simp at hs
+        subst hs
+        simp [upd_same, Local.feedLoad, hpc, UInv]
+    case aB =>
+      cases hm : (s.mem (.b (odd (s.thr t).loc.sq)))[ts]? <;> simp only [hm] at hs
+      · simp at hs
+      · split at hs <;> simp at hs
+        rename_i m hv
+        subst hs
+        obtain ⟨p, hp1, hp2, _⟩ := aB_reads_current hI t ts m hpc hm hv
+        have hge := loadView_ge (o := .acq) (m := m) hv .seq
+        simp only [upd_same, Local.feedLoad, hpc]
+        by_cases h1 : (s.thr t).loc.ub < m.val
+        · simp only [h1, if_true, UInv]
+          exact ⟨_, p, hge, hp1, by rw [hp2]; exact h1⟩
+        · by_cases h2 : chk (s.thr t).loc.ub (s.thr t).loc.uv = true <;> simp [h1, h2, UInv]
+    case aStB | aStV =>
+      simp at hs; subst hs
+      simp [upd_same, Local.feedUnit, hpc, UInv]
+    case aStSeq =>
+      simp at hs; subst hs
+      simp only [upd_same, Local.feedUnit, hpc, UInv]
+      refine ⟨(s.mem .seq).length, Nat.le_refl _, ?_⟩
+      rw [← hI.g.hlen]; simp
+    case uLock =>
+      split at hs <;> simp at hs
+      subst hs
+      cases s.poisoned <;> simp [upd_same, Local.feedLock, hpc, UInv]
+    case tTry =>
+      split at hs <;> simp at hs <;> subst hs
+      · cases s.poisoned <;> simp [upd_same, Local.feedLock, hpc, UInv]
+      · simp [upd_same, Local.feedLock, hpc, UInv]
+    case uClear | tClear | uUnlock | tUnlock | aUnlockPanic =>
+      simp at hs; subst hs
+      simp [upd_same, Local.feedUnit, hpc, UInv]
+    case aUnlock r =>
+      simp at hs; subst hs
+      simp only [hpc, UInv] at hUt
+      cases r <;> simp only [upd_same, Local.feedUnit, hpc, UInv]
+      exact hUt
+
+
+/-- A `run` step advances the thread's program by one access. -/
+theorem step_succ {chk : Nat → Nat → Bool} {s s' : State} {t ts : Nat} (h : step chk s (.run t ts) = some s') :
+    Local.Succ chk (s.thr t).loc (s'.thr t).loc := by
+  simp only [step] at h
+  cases hnx : (s.thr t).loc.next <;> simp only [hnx] at h
+  case load l o =>
+    cases hm : (s.mem l)[ts]? <;> simp only [hm] at h
+    · simp at h
+    · split at h <;> simp at h
+      subst h
+      simp only [upd_same]
+      exact .load l o _ hnx
+  case store l o val =>
+    simp at h; subst h
+    simp only [upd_same]
+    exact .unit (by simp [hnx]) (by simp [hnx]) (by simp [hnx]) (by simp [hnx])
+  case lock =>
+    split at h <;> simp at h
+    subst h
+    simp only [upd_same]
+    exact .lock _ (Or.inl hnx)
+  case tryLock =>
+    split at h <;> simp at h <;> subst h <;> simp only [upd_same] <;> exact .lock _ (Or.inr hnx)
+  case unlock p =>
+    simp at h; subst h
+    simp only [upd_same]
+    exact .unit (by simp [hnx]) (by simp [hnx]) (by simp [hnx]) (by simp [hnx])
+  case clearPoison =>
+    simp at h; subst h
+    simp only [upd_same]
+    exact .unit (by simp [hnx]) (by simp [hnx]) (by simp [hnx]) (by simp [hnx])
+  case none => simp at h
+
+/-- The release/acquire invariant extended with the writers' knowledge. -/
+def Ok (chk : Nat → Nat → Bool) (s : State) : Prop :=
+  Inv chk s ∧ ∀ t, UInv s.hist ((s.thr t).view .seq) (s.thr t).loc
+
+theorem ok_init (chk : Nat → Nat → Bool) (v0 : Nat) (h0 : chk 0 v0 = true) : Ok chk (init v0) :=
+  ⟨inv_init chk v0 h0, fun t => by simp [UInv, init]⟩
+
+theorem ok_step {chk : Nat → Nat → Bool} {s s' : State} {l : Label} (h : Ok chk s) (hs : step chk s l = some s') :
+    Ok chk s' :=
+  ⟨inv_step chk s s' l h.1 hs, uinv_step h.1 l h.2 hs⟩
+
+theorem ok_run (chk : Nat → Nat → Bool) (ls : List Label) : ∀ (s s' : State), Ok chk s →
+    run chk s ls = some s' → Ok chk s' := by
+  induction ls with
+  | nil => intro s s' hI h; simp [run] at h; subst h; exact hI
+  | cons l ls ih =>
+    intro s s' hI h
+    simp only [run] at h
+    cases hst : step chk s l with
+    | none => simp [hst] at h
+    | some s1 => simp [hst] at h; exact ih s1 s' (ok_step hI hst) h
+
+theorem ok_reachable {chk : Nat → Nat → Bool} {v0 : Nat} (h0 : chk 0 v0 = true) {s : State}
+    (h : Reachable chk v0 s) : Ok chk s := by
+  obtain ⟨ls, hls⟩ := h
+  exact ok_run chk ls _ _ (ok_init chk v0 h0) hls
+
+theorem laws (chk : Nat → Nat → Bool) : (mach chk).Laws chk (Ok chk) False where
+  ok_step := by
+    intro s s' l h hs
+    exact ok_step (s := s) (s' := s') (l := l) h hs
+  others := by
+    intro s s' l h hs t' ht
+    have := (step_frame (s := s) (s' := s') h.1 l hs).others t' ht
+    exact ⟨by show (s'.thr t').loc = (s.thr t').loc; rw [this.1], this.2⟩
+  vmono := by
+    intro s s' l h hs t'
+    exact (step_frame (s := s) (s' := s') h.1 l hs).views t' .seq
+  hist_ext := by
+    intro s s' l _ hs
+    exact hist_ext (s := s) (s' := s') (l := l) hs
+  sync := by
+    intro s s' t u h hs
+    obtain ⟨a, b, c⟩ := (step_frame (s := s) (s' := s') h.1 (.sync t u) hs).sync t u rfl
+    exact ⟨a, b, c .seq⟩
+  start := by
+    intro s s' t op h hs
+    obtain ⟨a, b, c, d⟩ := (step_frame (s := s) (s' := s') h.1 (.start t op) hs).start t op rfl
+    exact ⟨a, c, by show (s'.thr t).view .seq = (s.thr t).view .seq; rw [b], d⟩
+  run := by
+    intro s s' t ts h hs
+    exact ⟨step_succ (s := s) (s' := s') hs, ((step_frame (s := s) (s' := s') h.1 (.run t ts) hs).run t ts rfl).2.2⟩
+  snapRet := by
+    intro s t h hpc
+    have hpc : (s.thr t).loc.pc = .retSnap := hpc
+    obtain ⟨_, k, k1, k2, k3⟩ := (h.1.t t).lg.2.2 hpc
+    exact ⟨k, k1, k2, k3⟩
+  noPanic := by
+    intro s t h hpc
+    have hpc : (s.thr t).loc.pc = .sPanic := hpc
+    have := (h.1.t t).rd
+    simp [RInv, hpc] at this
+  uinv := fun h => h.2 _
+  sorted := fun h => h.1.g.sorted
+  global := fun h => h.elim
+
+end Woodpile.Abt.RA
+
+namespace Woodpile.Abt.RA
+
+/-- The accept direction: when `advance_once` compares (at `aB`) and the argument's base time is
+not older than the most recently published one, the call is not ignored: it goes on to the
+slot stores if the pair is valid (to the panic path otherwise), whatever message it read. -/
+theorem fresh_accepted {chk : Nat → Nat → Bool} {s s' : State} (hI : Inv chk s) (t ts : Nat)
+    (hpc : (s.thr t).loc.pc = .aB)
+    (cur : Nat × Nat) (hcur : s.hist.getLast? = some cur) (hfresh : cur.1 ≤ (s.thr t).loc.ub)
+    (hs : step chk s (.run t ts) = some s') :
+    (s'.thr t).loc.pc = (if chk (s.thr t).loc.ub (s.thr t).loc.uv then .aStB else .aUnlockPanic) ∧
+    s'.mem = s.mem ∧ s'.hist = s.hist := by
+  simp only [step, Local.next, hpc] at hs
+  cases hm : (s.mem (.b (odd (s.thr t).loc.sq)))[ts]? with
+  | none => simp [hm] at hs
+  | some m =>
+    simp only [hm] at hs
+    split at hs
+    · rename_i hv
+      simp at hs; subst hs
+      obtain ⟨p, _, hp2, hp3⟩ := aB_reads_current hI t ts m hpc hm hv
+      rw [hcur] at hp3; cases hp3
+      have : ¬ (s.thr t).loc.ub < m.val := by omega
+      by_cases h2 : chk (s.thr t).loc.ub (s.thr t).loc.uv = true <;> simp [Local.feedLoad, hpc, this, h2]
+    · simp at hs
+
+/-- Once accepted (`aStB`), the call's remaining four steps - two slot stores, the sequence
+store, the guard drop - are enabled in every state, and when the thread takes them (others may
+be anywhere; nobody else can append while it holds the lock - here it runs alone) it returns
+`true` with exactly its pair appended to the history. -/
+theorem accepted_completes (chk : Nat → Nat → Bool) (s : State) (t : Nat) (hpc : (s.thr t).loc.pc = .aStB) :
+    ∃ s', run chk s (List.replicate 4 (.run t 0)) = some s' ∧ (s'.thr t).loc.pc = .retBool true ∧
+      s'.hist = s.hist ++ [((s.thr t).loc.ub, (s.thr t).loc.uv)] ∧ s'.held = none := by
+  simp [List.replicate, run, step, Local.next, Local.feedUnit, hpc, upd_same]
+
+
+theorem mach_run (chk : Nat → Nat → Bool) (ls : List Label) : ∀ s : State, (mach chk).run s ls = run chk s ls := by
+  induction ls with
+  | nil => intro s; rfl
+  | cons l ls ih =>
+    intro s
+    simp only [run, Mach.run]
+    cases step chk s l with
+    | none => rfl
+    | some s1 => exact ih s1
+
+/-- The bookkeeping invariant holds in every reachable state of the bookkeeping machine. -/
+theorem ginv_reachable {chk : Nat → Nat → Bool} {v0 : Nat} (h0 : chk 0 v0 = true) {g : (mach chk).GState}
+    (h : GReachable chk v0 g) : (mach chk).GInv chk (Ok chk) False g := by
+  obtain ⟨ls, hls⟩ := h
+  exact Mach.ginv_run (laws chk) ls _ _ (Mach.ginv_init (ok_init chk v0 h0) (fun _ => rfl)) hls
+
+/-- The bookkeeping restricts nothing: the machine states it reaches are exactly the reachable ones. -/
+theorem greachable_iff (chk : Nat → Nat → Bool) (v0 : Nat) (s : State) :
+    Reachable chk v0 s ↔ ∃ g : (mach chk).GState, GReachable chk v0 g ∧ g.s = s := by
+  constructor
+  · rintro ⟨ls, hls⟩
+    obtain ⟨g', h1, h2⟩ := Mach.grun_lift (mach chk) ls ((mach chk).ginit (init v0)) s
+      ((mach_run chk ls (init v0)).trans hls)
+    exact ⟨g', ⟨ls, h1⟩, h2⟩
+  · rintro ⟨g, ⟨ls, hls⟩, rfl⟩
+    have := Mach.grun_erase (mach chk) ls _ g hls
+    exact ⟨ls, (mach_run chk ls (init v0)).symm.trans this⟩
+
+end Woodpile.Abt.RA
+
+namespace Woodpile.Abt.RA
+
+/-- Views only grow along any run. -/
+theorem views_run {chk : Nat → Nat → Bool} (ls : List Label) : ∀ (s s' : State), Inv chk s →
+    run chk s ls = some s' → ∀ t l, (s.thr t).view l ≤ (s'.thr t).view l := by
+  induction ls with
+  | nil => intro s s' _ h; simp [run] at h; subst h; intro _ _; exact Nat.le_refl _
+  | cons l ls ih =>
+    intro s s' hI h t loc
+    simp only [run] at h
+    cases hst : step chk s l with
+    | none => simp [hst] at h
+    | some s1 =>
+      simp only [hst] at h
+      exact Nat.le_trans ((step_frame hI l hst).views t loc) (ih s1 s' (inv_step chk s s1 l hI hst) h t loc)
+
+end Woodpile.Abt.RA
+
+namespace Woodpile.Abt.RA
+
+/-- Own steps a reader still needs when every load reads the LATEST message (what a machine
+with a single copy of memory does): the SC measure, with `nOf mem` for the current sequence. -/
+def latestMeasure (s : State) (t : Nat) : Nat :=
+  let th := (s.thr t).loc
+  match th.pc with
+  | .sSeq => 4
+  | .sV => if th.sq = nOf s.mem then 3 else 6
+  | .sB => if th.sq = nOf s.mem then 2 else 5
+  | .sSeq2 => if th.sq = nOf s.mem then 1 else 4
+  | _ => 0
+
+theorem latestMeasure_le (s : State) (t : Nat) : latestMeasure s t ≤ 6 := by
+  simp only [latestMeasure]
+  split <;> (try split) <;> omega
+
+theorem latest_step {chk : Nat → Nat → Bool} {s : State} (hI : Inv chk s) (t j : Nat)
+    (hpc : (s.thr t).loc.pc.inSnap = true) :
+    ∃ s', step chk s (.run t (pickLatest t j s)) = some s' ∧ s'.mem = s.mem ∧
+      (((s'.thr t).loc.pc = .retSnap ∧ latestMeasure s t = 1) ∨
+       ((s'.thr t).loc.pc.inSnap = true ∧ latestMeasure s' t + 1 = latestMeasure s t)) := by
+  have hT := hI.t t
+  have hG := hI.g
+  have hpos := hG.hpos
+  obtain ⟨l, o, hnx⟩ := (snapshot_no_lock_aux chk _ hpc).1
+  have hpick : pickLatest t j s = (s.mem l).length - 1 := by simp [pickLatest, hnx]
+  have hwf := hT.wfv l
+  have hne : step chk s (.run t (pickLatest t j s)) ≠ none := by
+    rw [Ne, step_none_iff]
+    intro h
+    rcases h with h | ⟨h, _⟩ | ⟨l', o', h, hbad⟩
+    · rw [hnx] at h; cases h
+    · simp [Local.next, h] at hnx
+    · rw [hnx] at h; injection h with h1 h2; subst h1
+      apply hbad; rw [hpick]; omega
+  cases hst : step chk s (.run t (pickLatest t j s)) with
+  | none => exact absurd hst hne
+  | some s' =>
+    refine ⟨s', rfl, (solo_step hI t _ hpc hst).1, ?_⟩
+    have hI' := inv_step chk s s' _ hI hst
+    have hnp := (hI'.t t).rd
+    have hmem := (solo_step hI t _ hpc hst).1
+    simp only [step] at hst
+    simp only [latestMeasure, hmem]
+    cases hp : (s.thr t).loc.pc <;> simp [hp, Pc.inSnap] at hpc <;> simp only [Local.next, hp] at hst hnx
+    case sSeq =>
+      injection hnx with h1 h2; subst h1
+      cases hm : (s.mem .seq)[pickLatest t j s]? <;> simp only [hm] at hst
+      · simp at hst
+      · split at hst <;> simp at hst
+        subst hst
+        rename_i m hv
+        have := hG.seqval _ m hm
+        right
+        simp [Local.feedLoad, hp, this, Pc.inSnap, nOf, hpick]
+    case sV =>
+      cases hm : (s.mem (.v (odd (s.thr t).loc.sq)))[pickLatest t j s]? <;> simp only [hm] at hst
+      · simp at hst
+      · split at hst <;> simp at hst
+        subst hst
+        right
+        simp [Local.feedLoad, hp, Pc.inSnap]
+        split <;> simp
+    case sB =>
+      cases hm : (s.mem (.b (odd (s.thr t).loc.sq)))[pickLatest t j s]? <;> simp only [hm] at hst
+      · simp at hst
+      · split at hst <;> simp at hst
+        subst hst
+        right
+        simp [Local.feedLoad, hp, Pc.inSnap]
+        split <;> simp
+    case sSeq2 =>
+      injection hnx with h1 h2; subst h1
+      cases hm : (s.mem .seq)[pickLatest t j s]? <;> simp only [hm] at hst
+      · simp at hst
+      · split at hst <;> simp at hst
+        subst hst
+        rename_i m hv
+        have hval := hG.seqval _ m hm
+        simp only [upd_same] at hnp
+        by_cases h1 : (s.thr t).loc.sq = pickLatest t j s
+        · left
+          by_cases h2 : chk (s.thr t).loc.base (s.thr t).loc.bits = true
+          · simp [Local.feedLoad, hp, hval, h1, h2, nOf, hpick]
+          · simp [Local.feedLoad, hp, hval, h1, h2, RInv] at hnp
+        · right
+          have : ¬ (s.thr t).loc.sq = nOf s.mem := by rw [hpick] at h1; simpa [nOf] using h1
+          simp [Local.feedLoad, hp, hval, h1, Pc.inSnap, this]
+          simp [nOf, hpick]
+
+/-- Reading the latest message at every load, the reader returns within 6 own steps - the SC
+bound - from any reachable state. -/
+theorem latest_terminates {chk : Nat → Nat → Bool} (t : Nat) (m : Nat) : ∀ (j : Nat) (s : State), Inv chk s →
+    (s.thr t).loc.pc.inSnap = true → latestMeasure s t = m →
+    ∃ s', solo chk t (pickLatest t) j m s = some s' ∧ (s'.thr t).loc.pc = .retSnap ∧ s'.mem = s.mem := by
+  induction m with
+  | zero =>
+    intro j s _ hpc hm
+    exfalso
+    simp only [latestMeasure] at hm
+    cases hp : (s.thr t).loc.pc <;> simp [hp, Pc.inSnap] at hpc <;> simp [hp] at hm <;> (split at hm <;> omega)
+  | succ m ih =>
+    intro j s hI hpc hm
+    obtain ⟨s1, hs1, hmem, h⟩ := latest_step hI t j hpc
+    rcases h with ⟨hret, h1⟩ | ⟨hin, h1⟩
+    · have : m = 0 := by omega
+      subst this
+      exact ⟨s1, by simp [solo, hs1], hret, hmem⟩
+    · obtain ⟨s', hs', hret, hmem'⟩ := ih (j + 1) s1 (inv_step chk s s1 _ hI hs1) hin (by omega)
+      exact ⟨s', by simp [solo, hs1, hs'], hret, by rw [hmem', hmem]⟩
+
+end Woodpile.Abt.RA
